@@ -1767,8 +1767,13 @@ class LinkTimeExpressionEvaluator(ConstantExpressionEvaluator):
                     declarations.FunctionDeclaration,
                 ),
             ):
-                value = self.codegenerator.ir_var_map[declaration]
-                cval = (ir.ptr, value.name)
+                if declaration in self.codegenerator.ir_var_map:
+                    name = self.codegenerator.ir_var_map[declaration].name
+                else:
+                    # The object is defined later, or is the one being
+                    # initialized right now: struct S a = {.next = &a};
+                    name = declaration.name
+                cval = (ir.ptr, name)
             else:
                 self.unsupported_address(expr)
         elif isinstance(expr, expressions.CompoundLiteral):
